@@ -20,12 +20,21 @@ def local_call_graph(crate):
     edges = {}
     for fn in crate.fns:
         by_path.setdefault(fn.path, fn)
+    impls = {}
+    for fn in crate.fns:
+        if fn.impl_trait and fn.kind != "closure":
+            impls.setdefault((fn.impl_trait, fn.path.rsplit("::", 1)[1]), []).append(fn.path)
     for fn in crate.fns:
         for bi, t in fn.calls():
             c = t["callee"]
             tgt = c.get("resolved") if c.get("resolved_crate") == crate.name else None
             if tgt is None and c.get("crate") == crate.name and "trait" not in c:
                 tgt = c.get("path")
+            if tgt is None and c.get("trait") and "resolved" not in c and c.get("crate") == crate.name:
+                # a method of a local trait called on a type parameter: any of its local impls may run
+                for ip in impls.get((c["trait"], c.get("method")), []):
+                    edges.setdefault(fn.path, []).append((fn, bi, t, ip))
+                continue
             if tgt is None or tgt not in by_path:
                 continue
             edges.setdefault(fn.path, []).append((fn, bi, t, tgt))
